@@ -96,24 +96,57 @@ def normal_multipliers(ctx):
     m = ctx.repo.mod(SP)
     fn = m.fn("_process_segments")
     r = ctx.rule("NORMAL-MULT", "_process_segments: normal multiplier is -1 exactly on elements whose domain index is in swapped_normals, +1 elsewhere", 1)
-    s = unparse(fn).replace(" ", "")
-    ok = ("normal_multipliers=_np.zeros(number_of_elements,dtype=_np.int32)" in s and "normal_multipliers[element_index]=-1" in s and "normal_multipliers[element_index]=1" in s
-          and "ifgrid.domain_indices[element_index]inswapped_normals:" in s)
-    r.check(ok, "_process_segments", SP, fn.name, fn.lineno, "normal multiplier assignment", "the two-branch assignment (-1 if domain index in swapped_normals else +1) changed")
+    defs = roles.Defs(fn)
+    pa = arg_names(fn)
+    rets = [s for s in fn.body if isinstance(s, ast.Return)]
+    ok, why = False, "does not return (support, normal_multipliers) from locals"
+    if len(rets) == 1 and isinstance(rets[0].value, ast.Tuple) and len(rets[0].value.elts) == 2 and isinstance(rets[0].value.elts[1], ast.Name):
+        N = rets[0].value.elts[1].id
+        S = [s for s in roles.stores(fn.body, defs, lv=False) if isinstance(s.tnode, ast.Subscript) and unparse(s.tnode.value) == N]
+        vals = {}
+        why = "multiplier stores %s" % [repr(s)[-40:] for s in S]
+        if len(S) == 2 and all(len(s.loops) == 1 and isinstance(s.loops[0].target, ast.Name) and len(s.guards) == 1 for s in S) and S[0].loops == S[1].loops:
+            lp = S[0].loops[0]
+            e = lp.target.id
+            full = roles.canon(lp.iter, defs).replace(" ", "") in (roles.expect("range(G.number_of_elements)", defs, lp.lineno, lv=False, G=pa[0]),
+                                                                   roles.expect("range(G.elements.shape[1])", defs, lp.lineno, lv=False, G=pa[0]))
+            test = roles.expect("G.domain_indices[E] in SW", defs, lp.lineno, lv=False, G=pa[0], E=e, SW=pa[3])
+            for s in S:
+                if s.guards[0][0] == test and unparse(s.tnode.slice) == e and isinstance(s.vnode, (ast.Constant, ast.UnaryOp)):
+                    vals[s.guards[0][1]] = ast.literal_eval(s.vnode)
+            ok = full and vals == {True: -1, False: 1}
+            why = "loop over all elements: %s; multiplier where `domain index in swapped_normals`: %s, elsewhere: %s (must be -1 / +1)" % (full, vals.get(True), vals.get(False))
+    r.check(ok, "_process_segments", SP, fn.name, fn.lineno, "normal multiplier assignment", why)
 
 
 def rwg_sign_rule(ctx):
     fn = ctx.repo.mod(MS).fn("_compute_rwg0_space_data")
     r = ctx.rule("RWG-SIGN", "edge function sign: +1 on a single-neighbour edge, +1/-1 on the two neighbours by `element == min(neighbours)` (antisymmetric)", 1)
-    found = None
-    for st in ast.walk(fn):
-        if isinstance(st, ast.If) and isinstance(st.test, ast.Compare):
-            t = unparse(st.test).replace(" ", "")
-            if t == "len(supported_neighbors)==1" and st.orelse:
-                found = st
-    ok = False
-    if found is not None:
-        b = unparse(found.body[0]).replace(" ", "")
-        e = unparse(found.orelse[0]).replace(" ", "")
-        ok = b == "local_multipliers[element_index,local_index]=1" and e == "local_multipliers[element_index,local_index]=1ifelement_index==min(supported_neighbors)else-1"
-    r.check(ok, "_compute_rwg0_space_data", MS, fn.name, found.lineno if found else fn.lineno, "rwg sign rule", "sign rule is no longer `1 if single neighbour else (1 if element == min(neighbours) else -1)`")
+    defs = roles.Defs(fn)
+    rets = [s for s in fn.body if isinstance(s, ast.Return)]
+    ok, why, line = False, "multiplier array not found among the returned values", fn.lineno
+    if len(rets) == 1 and isinstance(rets[0].value, ast.Tuple) and isinstance(rets[0].value.elts[-1], ast.Name):
+        W = rets[0].value.elts[-1].id
+        S = [s for s in roles.stores(fn.body, defs, lv=False) if isinstance(s.tnode, ast.Subscript) and unparse(s.tnode.value) == W]
+        why = "expected exactly two stores to the multipliers, in the two branches of one test on the number of supported neighbours (found %d)" % len(S)
+        if len(S) == 2 and S[0].guards and S[1].guards and S[0].guards[:-1] == S[1].guards[:-1] and S[0].guards[-1][0] == S[1].guards[-1][0] and S[0].loops == S[1].loops and len(S[0].loops) == 2:
+            e, l = S[0].loops[0].target.id, S[0].loops[1].target.id
+            line = S[0].node.lineno
+            by = {s.guards[-1][1]: s for s in S}
+            tgt = roles.expect("W[E, L]", defs, line, lv=False, W=W, E=e, L=l)
+            # the neighbour list the test counts: supported elements adjacent to the edge
+            nb = None
+            t = S[0].node
+            for st in ast.walk(fn):
+                if isinstance(st, ast.If) and S[0].node in ast.walk(st) and S[1].node in ast.walk(st) and isinstance(st.test, ast.Compare) and isinstance(st.test.left, ast.Call) \
+                        and unparse(st.test.left.func) == "len" and isinstance(st.test.comparators[0], ast.Constant) and st.test.comparators[0].value == 1 and isinstance(st.test.ops[0], ast.Eq):
+                    nb = st.test.left.args[0]
+            if nb is not None and True in by and False in by:
+                one = isinstance(by[True].vnode, ast.Constant) and by[True].vnode.value == 1
+                v = by[False].vnode
+                two = (isinstance(v, ast.IfExp) and isinstance(v.body, ast.Constant) and v.body.value == 1 and isinstance(v.orelse, ast.UnaryOp) and isinstance(v.orelse.op, ast.USub)
+                       and isinstance(v.orelse.operand, ast.Constant) and v.orelse.operand.value == 1
+                       and roles.canon(v.test, defs).replace(" ", "") == roles.expect("E == min(N)", defs, v.lineno, lv=False, E=e, N=nb))
+                ok = one and two and by[True].target == tgt and by[False].target == tgt
+                why = "single supported neighbour -> %s (must be 1); two neighbours -> `%s` (must be 1 if element == min(neighbours) else -1)" % (unparse(by[True].vnode), unparse(v)[:70])
+    r.check(ok, "_compute_rwg0_space_data", MS, fn.name, line, "rwg sign rule", why)
